@@ -20,6 +20,7 @@ RULE = (
     "literals; (c) tag-argument sweep (limit/offset/cols, ranges, cycle, case/when, include/render, translate, increment) "
     "over the pool; (d) random well-formed templates with hostile data. Non-trivial = the source parsed and the "
     "render reached a filter/tag evaluation (outcome ok or LiquidError), distinct by (source, data) hash."
+    " Rounds 5-6 added enumerated families: the engine's own drops (forloop, tablerowloop, block, args, kwargs) in 20 contexts and through every filter; hostile date strings; template names from data; render data under the names tags and filters look up themselves; a share of the workload under generous resource limits."
 )
 REQUIRED = [
     ("liquid/environment.py", "Environment.from_string"),
